@@ -239,3 +239,50 @@ pub fn gen_live(rng: &mut crate::prng::Rng, approx_len: usize, drop_pct: u64) ->
 pub fn fail_v(prop: &str, f: crate::oracle::Fail) -> Violation {
     Violation::new(prop, &f.0, f.1, f.2)
 }
+
+
+/// History prelude: an operation that FAILS because of an injected fault, executed on the same
+/// thread right before the scenario proper. Nothing it touches may leak into later operations
+/// (thread-local scratch buffers, pooled hashers, ...). `kind`: 1 = hashed read of a truncated
+/// copy of the file, 2 = slippi::write into a sink that runs out of space, 3 = peppi::write into
+/// a sink that runs out of space (biased to fail inside frames.arrow).
+pub fn prelude(kind: i64, seed: u64, m: &Model, ctx: &mut Ctx) {
+    use crate::pipeline::*;
+    let mut rng = crate::prng::Rng::new(seed ^ 0x9E1DE);
+    match kind {
+        1 => {
+            let cut = if m.bytes.len() > 20 { 16 + rng.usize_below(m.bytes.len() - 16) } else { m.bytes.len() / 2 };
+            let ro = read_slp(&m.bytes[..cut], &StreamSpec::default(), &[], OptsSpec { skip_frames: false, compute_hash: true });
+            ctx.probe_if(ro.res.is_err(), "prelude: a hashed read failed (truncated) before the scenario");
+            ctx.fault("prelude_failed_read", ro.res.is_err() as u64);
+        }
+        2 | 3 => {
+            let g = match read_slp_noopts(&m.bytes, &StreamSpec::default(), &[]).res {
+                Res::Ok(g) => g,
+                _ => return,
+            };
+            if kind == 2 {
+                let budget = rng.below(m.bytes.len().max(1) as u64);
+                let wo = write_slp(&g, &SinkSpec { enospc_after: Some(budget), ..Default::default() });
+                ctx.probe_if(wo.res.is_err(), "prelude: slippi::write failed (sink full) before the scenario");
+                ctx.fault("prelude_failed_write", wo.res.is_err() as u64);
+            } else {
+                // learn the archive size from a clean write of a twin, then fail inside the last entry or anywhere
+                let twin = match read_slp_noopts(&m.bytes, &StreamSpec::default(), &[]).res {
+                    Res::Ok(g) => g,
+                    _ => return,
+                };
+                let clean = write_slpp(twin, &SinkSpec::default(), Compression::None);
+                if !clean.res.is_ok() {
+                    return;
+                }
+                let total = clean.data.len() as u64;
+                let budget = if rng.chance(2, 3) { total.saturating_sub(1024 + rng.below(2048.min(total.max(1)))) } else { rng.below(total.max(1)) };
+                let wo = write_slpp(g, &SinkSpec { enospc_after: Some(budget), ..Default::default() }, Compression::None);
+                ctx.probe_if(wo.res.is_err(), "prelude: peppi::write failed (sink full) before the scenario");
+                ctx.fault("prelude_failed_write", wo.res.is_err() as u64);
+            }
+        }
+        _ => {}
+    }
+}
